@@ -590,3 +590,60 @@ UNITS += [
          assumptions=["UniformRealDistribution::operator(): one draw in [a, a + delta] (fma; not under contract)", "from_spherical uninterpreted: that its result is a UNIT vector is not decided"],
          note="IsotropicDistribution: two draws; cos(theta) in [-1, 1] and phi in [0, 2 pi] handed to from_spherical within its precondition"),
 ]
+
+
+# ---------------------------------------------------------------------------
+# ExponentialDistribution: non-negative samples from one draw
+# ---------------------------------------------------------------------------
+EXD = "src/celeritas/random/distribution/ExponentialDistribution.hh"
+
+
+def build_exponential(ctx):
+    from vkit.extract import init_list, ExtractionDrift
+    import re
+    sp = ctx.span(EXD, r"^ExponentialDistribution<RT>::ExponentialDistribution\(real_type lambda\)", r"\n\{\n.*?\n\}", [], name="ExponentialDistribution(lambda)")
+    k = sp.body.index("\n{\n")
+
+    class ct:
+        body = sp.body[k + 3:-1].replace("real_type{0}", "0")
+    il = [(m, re.sub(r"\s+", " ", e)) for m, e in init_list(sp.body[:k])]
+    if len(il) != 1 or il[0][0] != "neg_inv_lambda_":
+        raise ExtractionDrift("ExponentialDistribution initializer list is not ': neg_inv_lambda_(<expr>)': %r" % (il,))
+    init_expr = re.sub(r"real_type\{([^{}]*)\}", r"((real_type)(\1))", il[0][1])      # the initializer's own expression, substituted below
+    pc = ctx.func(EXD, r"^ExponentialDistribution<RT>::operator\(\)\(Generator& rng\) -> result_type", [
+        Rule(r"generate_canonical<RT>\(rng\)|generate_canonical<RealType>\(rng\)|generate_canonical\(rng\)", "generate_canonical(rng)", 1, note="generate_canonical -> stub with its [0,1) contract"),
+        Rule(r"std::log\(", "LOGU(", 1, note="std::log -> uninterpreted with the sign lemma on [0, 1)"),
+        Rule(r"return LOGU\(generate_canonical\(rng\)\) \* neg_inv_lambda_;", "return MULS(LOGU(generate_canonical(rng)), self->neg_inv_lambda_);", (0, 1), note="product -> uninterpreted with the IEEE sign rule"),
+        Rule(r"(?<![\w.>])neg_inv_lambda_\b", "self->neg_inv_lambda_", "*", note="data member"),
+    ], name="ExponentialDistribution::operator()")
+    return (HDR + RNG_MODEL + """
+typedef struct { real_type neg_inv_lambda_; } ExponentialDistribution;
+double __CPROVER_uninterpreted_log(double); double __CPROVER_uninterpreted_muls(double, double);
+/* log on [0, 1): never positive, -inf at 0, never NaN (value uninterpreted) */
+static real_type LOGU(real_type u) { real_type r = __CPROVER_uninterpreted_log(u); __CPROVER_assume(!(u >= 0 && u < 1) || r <= 0); return r; }
+/* IEEE sign rule of a product of two non-positive numbers one of which is non-zero ... : (x <= 0, y < 0) => x * y >= 0 (possibly +inf), not NaN */
+static real_type MULS(real_type x, real_type y) { real_type r = __CPROVER_uninterpreted_muls(x, y); __CPROVER_assume(!(x <= 0 && y < 0 && !__CPROVER_isinfd(y)) || r >= 0); return r; }
+void EXD_ctor(ExponentialDistribution* self, real_type lambda)
+__CPROVER_requires(self != 0 && lambda > 0 && lambda >= 1e-300 && !__CPROVER_isinfd(lambda))     /* own CELER_EXPECT; a finite rate that is not so small that 1/lambda overflows (stated range) */
+__CPROVER_assigns(self->neg_inv_lambda_)
+/* -1 / lambda: strictly negative and finite for every finite positive rate (no underflow to -0: 1 / DBL_MAX is a subnormal) */
+__CPROVER_ensures(self->neg_inv_lambda_ == -1.0 / lambda && self->neg_inv_lambda_ < 0 && !__CPROVER_isinfd(self->neg_inv_lambda_))
+{ self->neg_inv_lambda_ = """ + init_expr + """;   /* member initializer ': neg_inv_lambda_(...)': its expression text, extracted each run */ """ + ct.body + """}
+real_type EXD_call(ExponentialDistribution const* self, Engine* rng)
+__CPROVER_requires(self != 0 && self->neg_inv_lambda_ < 0 && !__CPROVER_isinfd(self->neg_inv_lambda_) && g_draws == 0)       /* the constructor's postcondition */
+__CPROVER_assigns(g_draws)
+/* one draw; the sample is never negative and never NaN (it is +inf for a draw of exactly 0: the distribution's support is [0, inf)) */
+__CPROVER_ensures(g_draws == 1 && __CPROVER_return_value >= 0)
+{""" + pc.body + """}
+void h_exd_ctor(void) { ExponentialDistribution d; real_type l; EXD_ctor(&d, l); VERIF_CANARY(); }
+void h_exd(void) { ExponentialDistribution d; Engine* e; EXD_call(&d, e); VERIF_CANARY(); }
+""")
+
+
+UNITS += [
+    Unit("c15_exponential_ctor", build_exponential, "h_exd_ctor", enforce="EXD_ctor", timeout=300, backend=["sat", "kissat", "cvc5", "z3"], must_have=[r"EXD_ctor.postcondition", r"celer_expect"], checks=["--bounds-check", "--pointer-check"],
+         note="ExponentialDistribution constructor: -1/lambda is strictly negative and finite for every finite lambda >= 1e-300 (IEEE division, bit-precise; for subnormal rates 1/lambda overflows)"),
+    Unit("c15_exponential", build_exponential, "h_exd", enforce="EXD_call", replace=["generate_canonical"], timeout=120, backend=["sat", "cvc5"], must_have=[r"EXD_call.postcondition", r"generate_canonical.precondition"], checks=["--bounds-check", "--pointer-check"],
+         assumptions=["log on [0,1) is <= 0 (-inf at 0), never NaN; product of a non-positive and a finite negative number is >= 0 (IEEE sign rule): assumed, values uninterpreted"],
+         note="ExponentialDistribution::operator(): one draw, sample >= 0 and not NaN (+inf for a zero draw)"),
+]
